@@ -761,6 +761,12 @@ func nsMutate(r *Rng, a *AdmitCase) {
 		if r.Bool() {
 			ol[api.EnforceVersionLabel] = pick(r, validVersions[:8])
 		}
+		if r.Chance(1, 5) { // a malformed label the update does not touch (byte for byte the same on both sides), next to the change of enforce
+			k := pick(r, []string{api.AuditLevelLabel, api.AuditVersionLabel, api.WarnLevelLabel, api.WarnVersionLabel, api.EnforceVersionLabel})
+			v := pick(r, []string{"1.24", "Restricted", "next", "", "v1.x"})
+			nl[k], ol[k] = v, v
+			a.Tags = append(a.Tags, "ns.sameMalformedLabelBothSides")
+		}
 		if a.Obj.Kind == "namespace" {
 			a.Obj.Labels = nl
 		}
